@@ -111,6 +111,11 @@ def run(c, tier):
     quick = tier == "quick"
     mc_cfg = "MC_CGlueObj_q.cfg" if quick else "MC_CGlueObj.cfg"
     lib.mc_step(c, "MC_CGlueObj", mc_cfg, workers=12 if quick else 16, timeout=3400, what="CGlueObj spec")
+    if quick and c.prop in ("C06", "C08"):
+        # the quick constants have one payload type, for which every cast succeeds (TLC -coverage: the failing
+        # branches of CastBorrow/CastMove are never taken); the cast configuration has a second type and the
+        # cast-related actions only, so CastIff and the release on a failed cast are exercised on every change too
+        lib.mc_step(c, "MC_CGlueObj", "MC_CGlueObj_cast.cfg", workers=12, timeout=1800, what="CGlueObj spec (failing casts)")
     c.cov["invariants_of_this_property"] = INVS[c.prop]
     if c.prop == "C07":
         d = run_tlc("MC_CGlueObj", "MC_CGlueObj_dev.cfg", workers=4, timeout=600)
